@@ -703,6 +703,16 @@ def explore(fn, bound=4, maxpaths=20000, stats=None, on_path=None, deadline_s=No
     return results, st
 
 
+class NumpyFallback(type):
+    """metaclass for class-level numpy stand-ins: names the stand-in does not define resolve to real numpy, so that
+    modified library code that reaches for another numpy function runs it (on object arrays of symbolic scalars most
+    of numpy works; comparisons fork through the path explorer) instead of crashing the harness"""
+
+    def __getattr__(cls, n):
+        import numpy
+        return getattr(numpy, n)
+
+
 def rebind(func, **subst):
     """Re-create func (same code object) with some global names replaced."""
     if isinstance(func, (staticmethod, classmethod)):
